@@ -120,15 +120,23 @@ PROPS['C18'] = {
                    'builder push / pop / pushDefaultLayers / build as tuple algebra over a symbolic layer tuple, YowStack.send / receive / '
                    'emitEvent / broadcastEvent / getProp / setProp, one hop of the data path and of the event walk in YowLayer (toUpper, '
                    'emitEvent, broadcastEvent with stop-on-true and the detached hand-off, onEvent) and the fan-out loops of '
-                   'YowParallelLayer.receive / send (every member, in order; loop invariants, unbounded group size). '
-                   'Bounded stand-in (labelled bounded): YowStack._construct wiring, YowParallelLayer method substitution / onEvent / '
+                   'YowParallelLayer.receive / send (every member, in order; loop invariants, unbounded group size), the group\'s onEvent, '
+                   'addPostConstructLayer and the assembly step YowStack._construct (two loop invariants, unbounded stack height: one '
+                   'instance per entry in entry order, each told its stack once, each wired once to the instance directly above and '
+                   'directly below, None at the two ends; WHICH object an entry becomes - the instance itself, a new instance of the class, '
+                   'a group for a tuple - rests on inspect.isclass / issubclass / the call of the entry and is left unconstrained). '
+                   'Bounded stand-in (labelled bounded): what _construct makes of each entry, YowParallelLayer method substitution / '
                    'getLayerInterface and the event walk through whole assembled stacks, on all shapes up to depth 3-4 plus random '
                    'shapes to depth 6 with groups of 1-4, four construction conventions, every consumer position, detached and normal.',
     'native_checks': [{'name': 'c18_stack_shapes', 'cmd': ['bounded/stack_check.py'],
                        'bound': 'quick: 340 shapes (depth<=3 exhaustive over widths {plain,1,2,4}) + 20 random to depth 6, x4 conventions, '
                                 'x every consumer level x detached/normal; 32 default-stack flag combinations with real layers'}],
-    'assumptions': ['YowStack.__init__ and YowParallelLayer.__init__ are opaque constructor events in the helper contracts (their effect is '
-                    'covered by the bounded stand-in only)', 'layers above/below are opaque objects whose onEvent result is an arbitrary value',
+    'assumptions': ['YowStack.__init__ and YowParallelLayer.__init__ are opaque constructor events in the helper contracts (that __init__ '
+                    'calls _construct on the given sequence is covered by the bounded stand-in only)',
+                    'inspect.isclass, issubclass on a value of unknown class and the call of a stack entry are opaque: unconstrained answers, '
+                    'the call returns some object and may raise anything (propagated)',
+                    'setStack / setLayers of the instances are opaque events (YowLayer.setLayers is two assignments; the link frame scan of '
+                    'the bounded stand-in checks that nothing else writes the links)', 'layers above/below are opaque objects whose onEvent result is an arbitrary value',
                     'the closure handed to execDetached is not executed symbolically (the bounded stand-in drains the queue)'],
 }
 
